@@ -206,7 +206,8 @@ NodeKey(rel) == LowerName(rel)
 \* was created with, `full` the query name as spelled by the caller
 QueryAbs(S, v, apex, full, qt, D) ==
   LET p == PrepareName(apex, full)
-  IN IF ~p.ok THEN {OutOfZone} ELSE ConcreteAnswer(S, v, NodeKey(p.rel), qt, D)
+  IN IF ~p.ok THEN {OutOfZone}
+     ELSE UNION {ConcreteAnswer(S, v, rel, qt, D) : rel \in {NodeKey(p.rel)}}   \* (binds the VALUE of the name)
 
 \* ReadZone::walk: the set of records handed to the callback
 RECURSIVE WalkNode(_, _, _, _)
@@ -507,7 +508,9 @@ WriteOp(w) ==
             \/ \E x \in ValsOf(t) : U_AddRecord(w, n, t, x) \/ U_DeleteRecord(w, n, t, x)
 
 Next ==
-  \/ \E r \in ZfRecs : ZfInsert(r) \/ ZfReject(r, "IN") \/ ZfReject(r, "CH")
+  \/ \E r \in ZfRecs :
+       \/ ZfInsert(r) \/ ZfReject(r, "IN")
+       \/ (r[2] = "A" /\ r[1] \in Owners(zf) /\ ZfReject(r, "CH"))    \* (a few of them: bounds TLC)
   \/ Build
   \/ \E w \in Writers :
        \/ \E kind \in OpFamilies \cap {"W", "U"} : AcquireWriteLock(w, kind)
